@@ -120,7 +120,7 @@ def _tag(tag):
 
 def nontrivial(op, mres, tag):
     f = op.split()
-    if f[1] in ("loop", "slow"):
+    if f[1] in ("loop", "slow", "loopmid"):
         return True
     if f[1] != "hist" or not mres.startswith("ok") or not tag:
         return False
@@ -133,8 +133,8 @@ def nontrivial(op, mres, tag):
 
 def branch(op, mres, tag):
     f = op.split()
-    if f[1] == "loop":
-        return "loop:" + mres
+    if f[1] in ("loop", "loopmid"):
+        return f[1] + ":" + mres
     if f[1] == "slow":
         return "slow:" + mres
     if not mres.startswith("ok") or not tag:
@@ -151,7 +151,7 @@ def predicate(op, il, mres, tag):
     f = op.split()
     if il.startswith("panic") or il.startswith("crash"):
         return ("Relic.Props.C20.healthy_iff", mres, "implementation crashed")
-    if f[1] == "loop":
+    if f[1] in ("loop", "loopmid"):
         # closing the server ends its background checking (whatever the model of the current loop says)
         if not il.startswith("exited"):
             return (OBLIGATIONS[0], "exited", "Server.Close() did not end healthCheckLoop within 1 s: " + il)
